@@ -1,14 +1,31 @@
 // Trusted stand-ins for swim-rust items outside the unit (their own behaviour is not verified here).
 // RemoteSender: only the lane label matters to the scheduler; sending is the async writer's business.
 #[verifier::external_body]
-pub struct RemoteSender { _p: core::marker::PhantomData<u8> }
+struct RemoteSender { _p: core::marker::PhantomData<u8> }
 impl RemoteSender {
-    pub uninterp spec fn lane(&self) -> Seq<char>;        // label under which the next frame is sent
-    pub uninterp spec fn id(&self) -> int;                // identity of the socket writer
+    uninterp spec fn lane(&self) -> Seq<char>;        // label under which the next frame is sent
+    uninterp spec fn id(&self) -> int;                // identity of the socket writer
     #[verifier::external_body]
-    pub fn update_lane(&mut self, lane_name: &str)
-        ensures final(self).lane() == lane_name@, final(self).id() == old(self).id()
+    fn update_lane(&mut self, lane_name: &str)
+        ensures final(self).lane() == lane_name@, final(self).id() == old(self).id(), final(self).sent() == old(self).sent()
     { unimplemented!() }
+    // ghost log of the frames handed to the socket writer: (lane label, notification with byte contents)
+    uninterp spec fn sent(&self) -> Seq<(Seq<char>, Notification<Seq<u8>, Seq<u8>>)>;
+    #[verifier::external_body]
+    async fn send_notification(&mut self, notification: Notification<&BytesMut, &[u8]>) -> (r: Result<(), std::io::Error>)
+        ensures
+            final(self).lane() == old(self).lane(), final(self).id() == old(self).id(),
+            r is Ok ==> final(self).sent() == old(self).sent().push((old(self).lane(), note_view(notification))),
+    { unimplemented!() }
+}
+spec fn note_view(n: Notification<&BytesMut, &[u8]>) -> Notification<Seq<u8>, Seq<u8>> {
+    match n {
+        Notification::Linked => Notification::Linked,
+        Notification::Synced => Notification::Synced,
+        Notification::Unlinked(Some(b)) => Notification::Unlinked(Some(b@)),
+        Notification::Unlinked(None) => Notification::Unlinked(None),
+        Notification::Event(b) => Notification::Event(b@),
+    }
 }
 // LaneRegistry: lane ids -> names; ids are never removed.
 #[verifier::external_body]
@@ -26,6 +43,9 @@ impl Text {
     pub uninterp spec fn chars(&self) -> Seq<char>;
     #[verifier::external_body]
     pub fn as_str(&self) -> (r: &str) ensures r@ == self.chars() { unimplemented!() }
+    pub uninterp spec fn utf8(&self) -> Seq<u8>;
+    #[verifier::external_body]
+    pub fn as_bytes(&self) -> (r: &[u8]) ensures r@ == self.utf8() { unimplemented!() }
 }
 #[verifier::external_body]
 pub struct CompletionSender { _p: core::marker::PhantomData<u8> }
